@@ -150,6 +150,23 @@ def _realise(ctx, yaw, n, exp, sc, root, delta, embs, perms) -> None:
                 check_meta(ctx, yaw, outcome[1], e_num, e_sw, None, None, delta, "reload_parallel", "scrambled_completion_order", detail)
             else:
                 ctx.violation(f"C12|reload_parallel|{outcome[0]}", dict(detail, error=repr(outcome[1])[:200]))
+        if ok and n % 3 == 2:
+            # a multi-step history on ONE cache directory in ONE process: restore the catalog sequentially (metadata read
+            # from meta.yml), then overwrite it with the same records under another order of the centres; the metadata of
+            # the new catalog must describe the new patches (nothing remembered from the directory's previous content)
+            try:
+                r1 = yaw.Catalog(root / "a", max_workers=1)
+                check_meta(ctx, yaw, r1, e_num, e_sw, e_rad, given, delta, "restore_sequential", "unchanged_cache", detail)
+                perm2 = (perm[1], perm[2], perm[0])
+                cen2 = sky.centre_coords(sc, emb, perm=perm2)
+                o1 = yaw.Catalog.from_dataframe(root / "a", dref, ra_name="ra", dec_name="dec", weight_name="w", redshift_name="z",
+                                                patch_centers=cen2, overwrite=True, max_workers=1, chunksize=2)
+                ctx.evaluated(1, ("overwrite_after_restore", emb, perm))
+                for tag, c_ in (("overwrite_after_restore_in_same_process", o1), ("overwrite_after_restore_then_restore", yaw.Catalog(root / "a", max_workers=1))):
+                    check_meta(ctx, yaw, c_, [exp["num1"][perm2[k]] for k in range(3)], [exp["sumw1"][perm2[k]] for k in range(3)],
+                               [exp["rad1"][perm2[k]] for k in range(3)], cen2.data.copy(), delta, "apply", tag, dict(detail, centre_order_before=list(perm), centre_order=list(perm2)))
+            except Exception as exc:  # noqa: BLE001
+                ctx.violation(f"C12|apply|overwrite_after_restore_in_same_process|raises_{type(exc).__name__}", dict(detail, error=repr(exc)[:200]))
         if n % 4 == 0:
             # patch-index mode: ids from the model's assignment
             dd = dref.copy()
